@@ -104,7 +104,8 @@ def make_mutant(src, kind, target):
         node._fz = idx
         idx += 1
         for ch in ast.iter_child_nodes(node):
-            ch._par = node
+            if not isinstance(ch, (ast.expr_context, ast.operator, ast.cmpop, ast.unaryop, ast.boolop)):
+                ch._par = node  # (the context / operator nodes are shared singletons: a pointer set on one leaks into every later tree)
     for node in ast.walk(tree):
         if node._fz == target:
             p_ = node
